@@ -124,7 +124,7 @@ def run_mutants(spec, engines, tier, budget, seed):
             stride = len(ss) / float(per_target_cap)
             ss = [ss[int(i * stride)] for i in range(per_target_cap)]
         for mid, desc in ss:
-            jobs.append((spec_path(spec.prop), spec.prop, t.ref, mid, desc, min(budget, 10)))
+            jobs.append((spec_path(spec.prop), spec.prop, t.ref, mid, desc, min(budget, 5)))
     if not jobs:
         return None
     ctx = mp.get_context("fork")
